@@ -200,27 +200,31 @@ theorem C13_rooms_wf (sh : Shape) (lh lw : Int) (ys xs : List Int) (d : DrawSt)
     · rw [if_neg hqe] at hk
       rcases rf.base.kinds q hq with h | h <;> (rw [h] at hk; simp [Obj.isKind, Obj.kind] at hk)
 
+/-- the room grid cannot be built: non-positive layouts, split vectors with a repeated entry -/
+theorem roomsGrid_rejects (sh : Shape) (lh lw : Int) (ys xs : List Int) (d : DrawSt)
+    (hbad : lh < 1 ∨ lw < 1 ∨ hasDup ys = true ∨ hasDup xs = true) :
+    roomsGrid sh lh lw ys xs d = .error .valueError := by
+  unfold roomsGrid
+  by_cases h1 : lh < 1 ∨ lw < 1
+  · have : (decide (lh < 1) || decide (lw < 1)) = true := by simpa using h1
+    simp [this]
+  · have h1' : (decide (lh < 1) || decide (lw < 1)) = false := by
+      simp only [Bool.or_eq_false_iff, decide_eq_false_iff_not]; omega
+    rcases hbad with h | h | h | h
+    · exact absurd (Or.inl h) h1
+    · exact absurd (Or.inr h) h1
+    · simp [h1', h]
+    · by_cases hy : hasDup ys = true
+      · simp [h1', hy]
+      · have hy' : hasDup ys = false := by simpa using hy
+        simp [h1', hy', h]
+
 /-- the code's own checks reject everything else whatever the stream: non-positive layouts and split
 vectors with a repeated entry (a side too short for the layout) -/
 theorem C13_rooms_rejects (sh : Shape) (lh lw : Int) (ys xs : List Int) (d : DrawSt)
     (hbad : lh < 1 ∨ lw < 1 ∨ hasDup ys = true ∨ hasDup xs = true) :
     resetRooms sh lh lw ys xs d = .error .valueError := by
-  have : roomsGrid sh lh lw ys xs d = .error .valueError := by
-    unfold roomsGrid
-    by_cases h1 : lh < 1 ∨ lw < 1
-    · have : (decide (lh < 1) || decide (lw < 1)) = true := by simpa using h1
-      simp [this]
-    · have h1' : (decide (lh < 1) || decide (lw < 1)) = false := by
-        simp only [Bool.or_eq_false_iff, decide_eq_false_iff_not]; omega
-      rcases hbad with h | h | h | h
-      · exact absurd (Or.inl h) h1
-      · exact absurd (Or.inr h) h1
-      · simp [h1', h]
-      · by_cases hy : hasDup ys = true
-        · simp [h1', hy]
-        · have hy' : hasDup ys = false := by simpa using hy
-          simp [h1', hy', h]
-  simp only [resetRooms, this]
+  simp only [resetRooms, roomsGrid_rejects sh lh lw ys xs d hbad]
 
 /-- the hypotheses are met by the shipped parameter sets (numpy's `linspace` vectors as recorded by
 the harness): 7×7 and 9×9 with layout 2×2, 10×10 and 13×13 with layout 3×3 -/
